@@ -18,9 +18,10 @@ def load(data):
 
 
 def roundtrip_event(obj, spec, w=False):
+    orig = projection.project_any(obj, spec)       # the public state BEFORE saving
     data = obj.read()
     out, q = load(data)
-    return {"op": "roundtrip", "w": bool(w), "orig": projection.project_any(obj, spec), "chunks": tlv.to_json_nested(data),
+    return {"op": "roundtrip", "w": bool(w), "orig": orig, "chunks": tlv.to_json_nested(data),
             "outcome": out, "back": projection.project_any(q, spec, True) if q is not None else {"kind": "none"}}
 
 
